@@ -1,4 +1,14 @@
-(* C05 — OBJ write/read round trip and load/save.  Statements only; proofs live in Formats/ObjProofs.v.
+(* C05 — THE PROPERTY (properties.jsonl, verbatim in meaning):
+     "Writing any list of named, well-formed triangle meshes - with or without normals, texture coordinates and
+      material ranges, in any mixture - to OBJ and reading it back yields one group per mesh with the same triangles
+      in order, the same per-corner position, normal and texture coordinate (float32 precision) and the same material
+      on every triangle.  Loading any valid triangulated OBJ (groups and usemtl statements in any arrangement) and
+      saving it again loses or invents no face."
+   Clause 1 = [obj_roundtrip] (line records) / [obj_roundtrip_bytes] (bytes); clause 2 = [obj_load_save_faces]
+   (line records) / [obj_load_save_bytes_partial] (bytes).  The text layer between bytes and line records is
+   Formats/ObjText.v ([obj_text_*] theorems below); number text (strconv) is a parameter with stated hypotheses.
+
+   C05 — OBJ write/read round trip and load/save.  Statements only; proofs live in Formats/ObjProofs.v.
 
    Vocabulary (Formats/Obj.v).  A file is a list of line records (V, VT, VN, G, UseMtl, F a b c, Fn, Short,
    MtlLib, O, Other); coordinates are float32 words, corners are (v, vt, vn, spelling) with 1-based indices.
@@ -7,7 +17,7 @@
    direct, table-free meaning of a line list: it never de-duplicates and never counts ranges.
    [mat_written] is what the writer does to a material name (nil -> DefaultDiffuse, spaces removed). *)
 From Coq Require Import String.
-From PF Require Import Base.Bytes Formats.Obj Formats.ObjProofs.
+From PF Require Import Base.Bytes Formats.Obj Formats.ObjProofs Formats.ObjText Formats.ObjTextProofs.
 Open Scope nat_scope.
 
 (* Clause 1: writing ANY list of well-formed triangle meshes (any number of meshes, each with or without
@@ -139,3 +149,86 @@ Example obj_example :
   | _ => False
   end.
 Proof. vm_compute. repeat split; reflexivity. Qed.
+
+(* ------------------------------------------------------------------------------------------------------------
+   The text layer (Formats/ObjText.v): bytes -> lines (bufio.ScanLines) -> fields (strings.Fields) -> statements.
+   ------------------------------------------------------------------------------------------------------------ *)
+Open Scope N_scope.
+
+(* every byte string tokenises: statements are non-empty lists of non-empty blank-free tokens, each is classified *)
+Theorem obj_text_layer_total : forall pf pi pri text,
+  Forall (fun fs => fs <> [] /\ Forall (fun t => cleanb t = true) fs) (stmts text) /\
+  length (lines_of_bytes pf pi pri text) = length (stmts text).
+Proof. exact text_layer_total. Qed.
+Print Assumptions obj_text_layer_total.
+
+(* a last line without terminator is kept: with or without a final '\n' a text has the same statements
+   (the seeded reader that drops an unterminated last line - C05-F - contradicts exactly this) *)
+Theorem obj_text_last_line_without_newline_kept : forall text, stmts (text ++ [10]) = stmts text.
+Proof. exact last_line_without_newline_kept. Qed.
+Print Assumptions obj_text_last_line_without_newline_kept.
+
+(* the statements of a text are those of its lines in order *)
+Theorem obj_text_lines_compose : forall a b, stmts (a ++ 10 :: b) = stmts a ++ stmts b.
+Proof. exact stmts_nl. Qed.
+Print Assumptions obj_text_lines_compose.
+
+(* CRLF instead of LF changes nothing *)
+Theorem obj_text_crlf_ignored : forall text, stmts (crlf text) = stmts text.
+Proof. exact crlf_ignored. Qed.
+Print Assumptions obj_text_crlf_ignored.
+
+(* blank lines are no statements; a '#' line is the statement Other, which reader and direct meaning skip *)
+Theorem obj_text_blank_and_comment_lines_ignored :
+  (forall a l b, forallb is_space l = true -> stmts (a ++ 10 :: l ++ 10 :: b) = stmts (a ++ 10 :: b)) /\
+  (forall pf pi pri k args, classify pf pi pri ((35 :: k) :: args) = TL Other) /\
+  (forall cfg a b, read_gen cfg (a ++ Other :: b) = read_gen cfg (a ++ b)) /\
+  (forall a b, file_groups (a ++ Other :: b) = file_groups (a ++ b)).
+Proof. exact blank_and_comment_lines_ignored. Qed.
+Print Assumptions obj_text_blank_and_comment_lines_ignored.
+
+(* number text is a parameter: [prf w] / [pri z] print one blank-free token (no '/' in integers) that parses back *)
+Definition number_text_ok (pf : list N -> option N) (pi : list N -> option Z) (prf : N -> list N) (pri : Z -> list N) :=
+  (forall w, cleanb (prf w) = true /\ pf (prf w) = Some w) /\
+  (forall z, cleanb (pri z) = true /\ no47 (pri z) = true /\ pi (pri z) = Some z).
+
+(* reading the bytes the writer prints for its statements gives back exactly those statements *)
+Theorem obj_text_print_then_read : forall pf pi prf pri, number_text_ok pf pi prf pri ->
+  forall ls, Forall printable ls -> lines_of_bytes pf pi pri (print_lines prf pri ls) = map TL ls.
+Proof. intros pf pi prf pri [H1 H2]. exact (print_then_read pf pi prf pri H1 H2). Qed.
+Print Assumptions obj_text_print_then_read.
+
+(* Clause 1 over BYTES: the text WriteMeshes prints (as bytes) tokenises to the writer's statements and reads back
+   group by group; [mesh_clean]: group names and written material names consist of non-empty blank-free pieces *)
+Theorem obj_roundtrip_bytes : forall pf pi prf pri, number_text_ok pf pi prf pri ->
+  forall mtl ms, wf_list ms = true -> mtl <> Some [] ->
+  Forall mesh_clean ms -> match mtl with Some f => clean_name f | None => True end ->
+  exists text gs, write_bytes prf pri mtl ms = Ok text /\
+    lines_of_bytes pf pi pri text = map TL (match write mtl ms with Ok ls => ls | _ => [] end) /\
+    read_bytes pf pi pri text = Ok (gs, libs_of mtl) /\ length gs = length ms /\
+    forall k m g, nth_error ms k = Some m -> nth_error gs k = Some g ->
+      m_name g = m_name m /\ corners g = corners m /\
+      tri_mats (m_mats g) = map (fun mt => Some (mat_written mt)) (tri_mats (m_mats m)).
+Proof. intros pf pi prf pri [H1 H2]. exact (roundtrip_bytes pf pi prf pri H1 H2). Qed.
+Print Assumptions obj_roundtrip_bytes.
+
+(* Clause 2 over BYTES, PARTIAL.  Full statement: for every byte string whose statements all parse and form a valid
+   triangulated OBJ, read_bytes / write_bytes / read_bytes succeed and no face is lost or invented.  Proved with one
+   extra premise for the second half: the names the reader returned are printable ([mesh_clean gs1]); they are
+   fields of the input, so this holds for byte values < 256, but the invariant through the reader is not proved. *)
+Theorem obj_load_save_bytes_partial : forall pf pi prf pri, number_text_ok pf pi prf pri ->
+  forall text file, good_prefix (lines_of_bytes pf pi pri text) = (file, false) -> valid file = true ->
+  exists gs1, read_bytes pf pi pri text = Ok (gs1, lib_names file) /\ map obs gs1 = file_groups file /\
+    (Forall mesh_clean gs1 ->
+     exists text2 gs2, write_bytes prf pri None gs1 = Ok text2 /\
+       read_bytes pf pi pri text2 = Ok (gs2, []) /\ map obs gs2 = map gobs_written (file_groups file)).
+Proof. intros pf pi prf pri [H1 H2]. exact (load_save_bytes_partial pf pi prf pri H1 H2). Qed.
+Print Assumptions obj_load_save_bytes_partial.
+
+(* non-vacuity of the text layer: CRLF, tabs, a comment, a blank line, an unterminated last f line *)
+Example obj_text_example :
+  lines_of_bytes (fun _ => Some 7) atoi itoa
+    (kw "v 0 0 0" ++ [13; 10] ++ kw "v 1	0  0 " ++ [10] ++ kw "# c" ++ [10; 32; 10] ++ kw "v 0 1 0" ++ [10] ++ kw "f 1 02 3//")
+  = [TL (V (7, 7, 7)); TL (V (7, 7, 7)); TL Other; TL (V (7, 7, 7));
+     TL (F (1%Z, None, None, 0) (2%Z, None, None, enc (kw "02")) (3%Z, None, None, enc (kw "3//")))].
+Proof. vm_compute. reflexivity. Qed.
